@@ -1,5 +1,6 @@
 mod c10;
 mod c15;
+mod c16;
 mod core;
 mod refpos;
 mod synchecks;
@@ -13,9 +14,10 @@ static C02: synchecks::SynCheck = synchecks::SynCheck { mode: synchecks::Mode::T
 
 static C10: c10::C10 = c10::C10;
 static C15: c15::C15 = c15::C15;
+static C16: c16::C16 = c16::C16;
 
 fn registry() -> Vec<&'static dyn Check> {
-    vec![&C01, &C02, &C10, &C15]
+    vec![&C01, &C02, &C10, &C15, &C16]
 }
 
 fn usage() -> ! {
